@@ -53,6 +53,7 @@ type hfKey struct {
 
 type synthState struct {
 	ctors       map[interface{}]*ctorInfo
+	sfvBusy     map[ssa.Value]bool
 	ctorCalls   map[string]*ssa.Call
 	syn         map[synKey]ssa.Value
 	hf          map[hfKey][]Fact
@@ -2440,4 +2441,69 @@ func (w *World) localFuncTargets(v ssa.Value) []*ssa.Function {
 		}
 	}
 	return out
+}
+
+// deepRet: a return reached when result #idx of a function is followed into the module helpers
+// whose result it hands on (`return c.handleResponse(msg)`): the innermost return instruction
+// and the value it yields.
+type deepRet struct {
+	ret *ssa.Return
+	val ssa.Value
+}
+
+func (w *World) returnsThrough(fn *ssa.Function, idx int, depth int) []deepRet {
+	var out []deepRet
+	seen := map[*ssa.Function]bool{}
+	var visit func(f *ssa.Function, i int, d int)
+	visit = func(f *ssa.Function, i int, d int) {
+		if seen[f] {
+			return
+		}
+		seen[f] = true
+		defer delete(seen, f)
+		for _, r := range returnsOf(f) {
+			if i >= len(r.Results) {
+				continue
+			}
+			v := w.resolveLoad(r.Results[i])
+			if call, ci := callOf(v); call != nil && d > 0 && call.Parent() == f {
+				if h := call.Call.StaticCallee(); h != nil && w.IsMod[h] && len(h.Blocks) > 0 && w.singleSiteCI(h) == ssa.CallInstruction(call) {
+					if ci < 0 {
+						ci = 0
+					}
+					visit(h, ci, d-1)
+					continue
+				}
+			}
+			out = append(out, deepRet{r, v})
+		}
+	}
+	visit(fn, idx, depth)
+	return out
+}
+
+// byValueOrigin: b is the spill slot of a by-value struct parameter (or receiver) of the helper
+// called at hc (`func (a PeerAddress) UDPAddr()`: *b = a): the ADDRESS in the caller the
+// argument was loaded from (`peer.UDPAddr()` passes *(&peer)), nil otherwise. The copy shares
+// slices and pointers with that storage.
+func (w *World) byValueOrigin(b *ssa.Alloc, hc *ssa.Call) ssa.Value {
+	if b == nil || hc == nil || hc.Call.StaticCallee() != b.Parent() {
+		return nil
+	}
+	ss := w.stores[w.locKey(b)]
+	if len(ss) != 1 {
+		return nil
+	}
+	p, isP := ss[0].Val.(*ssa.Parameter)
+	if !isP || p.Parent() != b.Parent() {
+		return nil
+	}
+	i := paramIndex(p)
+	if i < 0 || i >= len(hc.Call.Args) {
+		return nil
+	}
+	if u, isU := hc.Call.Args[i].(*ssa.UnOp); isU && u.Op == token.MUL {
+		return u.X
+	}
+	return nil
 }
